@@ -99,7 +99,22 @@ def case_strategy():
         for need in ("moon", "sun"):
             if v["k"] == need and need not in reader:
                 reader = list(reader) + [need] if draw(st.booleans()) else [need] + list(reader)
-        return {"value": v, "store": store, "pre": pre, "ops": ops, "reader": list(reader)}
+        case = {"value": v, "store": store, "pre": pre, "ops": ops, "reader": list(reader)}
+        if v["k"] == "moon" and store != "dbfs" and draw(st.booleans()):
+            # first written by the generic pickle codec (no codec registered for the class yet); the blob then loses its
+            # metadata and the file codec of the class is registered before the result is stored again
+            case["orphan"] = "moon"
+            case["pre"] = [x for x in pre if x != "moon"]
+            case["ops"] = [o for o in ops if o not in ("moon", "moon_alt")]
+            case["reader"] = ["moon"] + [x for x in case["reader"] if x not in ("moon", "moon_alt")]
+        elif v["k"] == "str" and store != "dbfs" and draw(st.integers(0, 3)) == 0:
+            # the blob loses its metadata (as after a writer killed between the two writes) and a codec that takes
+            # over str for new writes is registered before the result is stored again
+            case["orphan"] = True
+            case["ops"] = [o for o in ops if o != "altstr"]
+            if "altstr" not in case["reader"]:
+                case["reader"] = ["altstr"] + case["reader"]
+        return case
 
     return gen()
 
@@ -188,6 +203,15 @@ def _write_phase(case, store_dir):
             out["steps"].append((name, False, None, f"{type(e).__name__}: {e}"[:400]))
 
     step("keep", mod.f)
+    if case.get("orphan"):
+        import glob
+
+        for m in glob.glob(os.path.join(store_dir, "internal", "blobs", "*.meta")):
+            os.remove(m)
+        H.register(store, "moon" if case["orphan"] == "moon" else "altstr", codecs)
+        if hasattr(store, "_cache"):
+            store._cache._cache.clear()   # nothing of the lost write survives in memory either
+        step("keep again after the blob lost its metadata and another codec took over the type", mod.f)
     for n in case["ops"]:
         H.register(store, n, codecs)
     step("load in the writing process", lambda: dds.load("/out/v"))
@@ -257,7 +281,7 @@ def check_case(case, ev=None, scratch=None):
                     raise Violation(f"{what}: the value written by codec {ref} was decoded by {des}", case)
         # verbatim files
         k = case["value"]["k"]
-        if k in ("str", "bytes", "bytearray"):
+        if k in ("str", "bytes", "bytearray") and not case.get("orphan"):
             want = case["value"]["v"].encode("utf-8") if k == "str" else bytes(dec(case["value"]["v"]))
             if case["store"] == "dbfs":
                 data_file = os.path.join(store_dir, "dbfsroot", "data", "out", "v")
@@ -285,7 +309,7 @@ def check_case(case, ev=None, scratch=None):
             if v["k"] == "str" and len(v["v"]) > 200:
                 slim = dict(case, value={"k": "str", "v": v["v"][:50] + f"...({len(v['v'])} chars)"})
             ev.case(slim, bool(case["ops"] or case["reader"] or special),
-                    features=["type:" + v["k"], "store:" + case["store"]] + ["between:" + o for o in case["ops"]] + (["special-value"] if special else []),
+                    features=["type:" + v["k"], "store:" + case["store"]] + ["between:" + o for o in case["ops"]] + (["special-value"] if special else []) + (["orphan-blob+codec-takeover"] if case.get("orphan") else []),
                     key=case)
     finally:
         if own:
